@@ -35,6 +35,15 @@ def mutate(rng, hexs, out):
         if rng.chance(1, 6):
             out.append(b[:i] + b"\x00\x01\x00\x01" + b[i + 4:])   # 65537: just above the incremental-read threshold
             out.append(b[:i] + b"\x00\x01\x00\x00" + b[i + 4:])   # 65536
+    # every power of two (and its neighbours) in the 32-bit field right after the tag: counts / lengths whose
+    # products with an element size wrap around 2^32
+    if n >= 5:
+        for k in range(12, 32):
+            for d in (-1, 0, 1):
+                v = (1 << k) + d
+                out.append(b[:1] + v.to_bytes(4, "big") + b[5:])
+        for k in (28, 29, 30, 31):
+            out.append(b[:1] + ((1 << k) + 4096).to_bytes(4, "big") + b[5:])
 
 
 def run(ctx):
